@@ -107,7 +107,12 @@ def check(ck):
     if not (flag and sput and joins and clears and drain):
         raise AnalysisError("anchor vanished: flag/sentinel/join/clear steps of ThreadPool.stop")
     ck.require(flag[0].id in ds[sput[0].id], "C11.3", "%s: flag set before the sentinels" % q.fn(fs), "ordered", "sentinels are queued before the stop flag is set", q.loc(fs, sput[0]))
-    loop = [n for n in gs.live_nodes() if n.kind == "for_body" and dump(n.ast.iter) == "self._threads" and n.id in ds[sput[0].id]]
+    def _thread_list(n_, e_):
+        t_ = prov.origin(gs, n_, e_)
+        own = ("attr", ("param", "self"), "_threads")
+        return t_ == own or (t_[0] == "call" and t_[1] == ("global", "list") and t_[2] == (own,)) or \
+            (t_[0] == "item" and t_[1] == own) or dump(e_) == "self._threads[:]"
+    loop = [n for n in gs.live_nodes() if n.kind == "for_body" and _thread_list(n, n.ast.iter) and n.id in ds[sput[0].id]]
     ck.require(bool(loop), "C11.3", "%s: one sentinel per registered thread" % q.fn(fs), "put inside `for _ in self._threads`",
                "stop() does not queue one wake-up sentinel per registered worker", q.loc(fs, sput[0]))
     for jn in joins:
@@ -127,9 +132,12 @@ def check(ck):
     fst = prog.func(TP, "ThreadPool.start")
     gst = cfg_of(fst)
     dst = dominators(gst)
-    gr = [n for n in gst.live_nodes() if n.kind == "return" and any(gst.nodes[i].kind == "branch" and dump(gst.nodes[i].test) == "self._done_event.is_set()" and not gst.nodes[i].polarity for i in dst[n.id])]
     clr = [n for n in gst.live_nodes() for c in node_calls(n) if dump(c.func) == "self._done_event.clear"]
-    ck.require(len(gr) == 1 and len(clr) == 1 and any(gst.nodes[i].kind == "branch" and dump(gst.nodes[i].test) == "self._done_event.is_set()" and gst.nodes[i].polarity for i in dst[clr[0].id]),
+    eff = clr + [n for n in gst.live_nodes() for c in node_calls(n) if dump(c.func) == "self.__start_thread"]
+    # everything start() does happens on the "was stopped" edge of the flag test (early return or enclosing if)
+    gated = bool(eff) and all(any(gst.nodes[i].kind == "branch" and dump(gst.nodes[i].test) == "self._done_event.is_set()" and gst.nodes[i].polarity
+                                  for i in dst[n.id]) for n in eff)
+    ck.require(gated and len(clr) == 1,
                "C11.3", "%s: no-op unless stopped, then clears the flag" % q.fn(fst), "guarded", "start() is not idempotent on the stop flag", q.loc(fst, fst.node))
     fc = prog.func(TP, "ThreadPool.clear")
     gc = cfg_of(fc)
